@@ -1,6 +1,6 @@
 (* C02 — header-type sections display exactly the values encoded in the log. *)
 From Coq Require Import List NArith ZArith Bool Arith.
-From PV Require Gen.Layouts Spec.PublishedLayouts Proofs.LayoutFacts Base.Reader.
+From PV Require Gen.Layouts Spec.PublishedLayouts Proofs.LayoutFacts Base.Reader Model.StreamProg Gen.Readers Proofs.ReaderSectFacts.
 From PV Require Import Base.Bytes Base.Lit Base.Json Base.PelTypes Model.Parse Model.Render Spec.Encode Spec.DocOf Gen.Tables
                        Proofs.ParseFacts Proofs.RenderFacts.
 Import ListNotations.
@@ -83,6 +83,18 @@ Theorem C02_source_displays :
   Gen.Layouts.sh_ImpactedPartition = Spec.PublishedLayouts.sh_ImpactedPartition.
 Proof. repeat split; reflexivity. Qed.
 Print Assumptions C02_source_displays.
+
+(* SOURCE-TEXT tie of the Impacted Partition section (the same theorem as C01_source_lp_reader): ImpactedPartition.toJSON as translated
+   by harness/extract_readers.py reads, for EVERY byte string, what the model's parse_lp reads - the four fixed fields, the name when
+   its length is non-zero, the targets in order, two pad bytes after an odd count. *)
+Theorem C02_source_lp_reader : forall d,
+  match StreamProg.run Gen.Readers.prog_lp (StreamProg.init d) with
+  | StreamProg.RFall s => parse_lp d = Some (ReaderSectFacts.lp_of s, StreamProg.s_rest s)
+  | StreamProg.RErr => parse_lp d = None
+  | _ => False
+  end.
+Proof. exact ReaderSectFacts.lp_prog_correct. Qed.
+Print Assumptions C02_source_lp_reader.
 
 (* ... and the model's readers are the generic reader over the published read sequences: every field is read with that width,
    in that order (LayoutFacts.read_fields reads get_mem of the width per entry, a time stamp by the seven reads of getTimestamp) *)
